@@ -96,6 +96,23 @@ func Int64(tag string) int64          { return int64(next(tag, "b64")) }
 func Uint64(tag string) uint64        { return next(tag, "b64") }
 func Int32(tag string) int32          { return int32(next(tag, "b32")) }
 func Rune(tag string) rune            { return rune(next(tag, "b32")) }
+// IntIn returns a symbolic int in [lo,hi] (natively: the replayed value).
+func IntIn(tag string, lo, hi int) int {
+	suffix := "b64"
+	switch {
+	case lo >= -128 && hi <= 127:
+		suffix = "b8"
+		return int(int8(next(tag, suffix)))
+	case lo >= -32768 && hi <= 32767:
+		suffix = "b16"
+		return int(int16(next(tag, suffix)))
+	case lo >= -1<<31 && hi <= 1<<31-1:
+		suffix = "b32"
+		return int(int32(next(tag, suffix)))
+	}
+	return int(next(tag, suffix))
+}
+
 func Bool(tag string) bool            { return next(tag, "o") != 0 }
 func Float64(tag string) float64      { return f64frombits(next(tag, "f64")) }
 
